@@ -60,15 +60,15 @@ def corpus_cases():
     return [
         # lost cancellation: ^C ^Z while worker 0 is created but has not yet marked itself RCMD; it then runs
         dict(base, fanout=1, hosts=one, opts=opts,
-             choices="D D D D D D i2 Z Z Z Z Z Z Z i20 Z Z Z Z W0".split()),
+             choices="D D D D D D i2 Z Z Z i20 Z Z Z W0".split()),
         # all remaining slots canceled while the dispatcher waits for room: it must break out and drain
         dict(base, fanout=1, hosts=two, opts=opts,
-             choices="D D D D D D D D W0 W0 W0 i2 Z Z Z Z Z Z Z i20 Z Z Z Z".split()),
+             choices="D D D D D D D D W0 W0 W0 i2 Z Z Z i20 Z Z Z".split()),
         # dsh() cancels the signals thread in the middle of a handler (interrupt during the final drain)
         dict(base, fanout=1, hosts=one, opts=opts,
-             choices="D D D D D D W0 W0 W0 W0 W0 W0 W0 W0 W0 W0 W0 W0 D D D D i2 Z D D D".split()),
+             choices="D D D D D D D D W0 W0 W0 W0 W0 W0 W0 W0 W0 W0 W0 W0 D W0 D D i2 Z D D D".split()),
         # batch ^C before the first connection
-        dict(base, fanout=1, hosts=two, opts=dict(opts, batch=1), choices="D D D i2 Z Z Z Z".split()),
+        dict(base, fanout=1, hosts=two, opts=dict(opts, batch=1), choices="D D D i2 Z Z Z".split()),
     ]
 
 
